@@ -407,7 +407,9 @@ def _ordered_loops(fn):
 # --------------------------------------------------------------------------------------------------
 def apply_contract(eng: Engine, st: State, fv: SFunc, c: Contract, args, kwargs, node=None):
     """call site: assert the callee's precondition, havoc its frame, assume its postcondition"""
+    eng.skolem_scope = next(sym._fresh)
     vals = eng.bind_params(st, fv, args, kwargs, node)
+    vals = {k: (v.lst if isinstance(v, models.SGen) else v) for k, v in vals.items()}  # a generator argument is seen as the list of what it yields
     if c.modifies is None:
         raise Unsupported(f"contract of {c.target} has no modifies clause (needed at call sites)")
     # the callee frame
@@ -462,10 +464,12 @@ def apply_contract(eng: Engine, st: State, fv: SFunc, c: Contract, args, kwargs,
         finally:
             eng.pure = saved
         st.log_event(name, [v_ for v_ in vals if not isinstance(v_, (SFunc,))])
-    # objects allocated by the callee
-    na = z3.Int(sym.fresh_name("alloc"))
-    st.assume(na >= st.heap.next_ref)
-    st.heap.next_ref = na
+    # objects allocated by the callee (a callee with an empty frame and no logged effect is treated as allocation-free:
+    # whatever it allocates is unreachable from the caller except through its result, which is fresh-typed below)
+    if fields or refs or events or c.logs:
+        na = z3.Int(sym.fresh_name("alloc"))
+        st.assume(na >= st.heap.next_ref)
+        st.heap.next_ref = na
     rty = eng.fe.parse_type(fv.node.returns, fv.module) if fv.node.returns is not None else ANY
     out = []
     # exceptional outcomes
